@@ -1,6 +1,9 @@
 package props
 
 import (
+	"fmt"
+	"strconv"
+	"strings"
 	"testing"
 	"unicode/utf8"
 
@@ -219,4 +222,89 @@ func TestC16_Literals(t *testing.T) {
 			})
 		}
 	})
+}
+
+// C16 (long literals): a long run of plain characters followed by an escape,
+// in each of the three literal syntaxes. Offsets kept in narrow integer
+// fields, fixed buffers and "first escape" short cuts show at lengths around
+// 2^8, 2^16 and 2^20.
+func TestC16_Long(t *testing.T) {
+	c := collector("C16", "long")
+	shard, _ := strconv.Atoi(getenv("VERIF_SHARD", "0"))
+	nshards, _ := strconv.Atoi(getenv("VERIF_NSHARDS", "1"))
+	type esc struct{ text, value string }
+	escapes := map[string][]esc{
+		"quoted": {{`\"`, `"`}, {`\\`, `\`}, {`\n`, "\n"}, {`é`, "é"}, {`😀`, "😀"}, {`\/`, "/"}, {`é\t`, "é\t"}},
+		"json":   {{`\"`, `"`}, {`\\`, `\`}, {`\n`, "\n"}, {`é`, "é"}, {`😀`, "😀"}, {`\/`, "/"}, {"\\`", "`"}},
+		"raw":    {{`\'`, `'`}, {`\\`, `\`}, {`\n`, `\n`}, {`é\'`, `é'`}, {`\a\'`, `\a'`}},
+	}
+	i := 0
+	for _, kind := range []string{"quoted", "json", "raw"} {
+		for _, n := range []int{254, 255, 256, 65534, 65535, 65536, 65537, 70000, 1<<20 + 1} {
+			for _, e := range escapes[kind] {
+				i++
+				if i%nshards != shard {
+					continue
+				}
+				c.Case()
+				call := run.Call{API: "search", Expr: fmt.Sprintf("longliteral:%s:%d:%s", kind, n, e.text)}
+				run.WatchAs(c, "long", "custom:c16-long", mustJSON(map[string]any{"value": e.value}), call)
+				if msg := c16LongVerdict(kind, n, e.text, e.value); msg != "" {
+					c.Fail(t, run.Replay{Check: "long", Kind: "custom:c16-long", Calls: []run.Call{call}, Message: fmt.Sprintf("%s literal with %d plain characters before the escape %s: %s", kind, n, e.text, truncate(msg, 300)),
+						Extra: mustJSON(map[string]any{"value": e.value})}, kind)
+					return
+				}
+				c.NonTrivial(fmt.Sprint(kind, n, e.text), func() any { return map[string]any{"syntax": kind, "plain_prefix": n, "escape": e.text} })
+			}
+		}
+	}
+}
+
+func c16LongVerdict(kind string, n int, escText, escValue string) string {
+	prefix := strings.Repeat("k", n)
+	want := prefix + escValue + "z"
+	var text string
+	var data any
+	var wantVal jv.Val
+	switch kind {
+	case "quoted":
+		text = `"` + prefix + escText + `z"`
+		data = map[string]any{want: "hit", prefix: "miss", "": "miss"}
+		wantVal = jv.VStr("hit")
+	case "json":
+		text = "`\"" + prefix + escText + "z\"`"
+		wantVal = jv.VStr(want)
+	default:
+		text = "'" + prefix + escText + "z'"
+		wantVal = jv.VStr(want)
+	}
+	for _, o := range []run.Outcome{run.Search(text, data), func() run.Outcome {
+		e, co := run.Compile(text)
+		if e == nil {
+			return co
+		}
+		return run.ExprSearch(e, data)
+	}()} {
+		if msg := run.CheckAgainst(model.Res{V: wantVal}, o); msg != "" {
+			return msg
+		}
+	}
+	return ""
+}
+
+func init() {
+	customReplays["custom:c16-long"] = func(r run.Replay) string {
+		var ex struct {
+			Value string `json:"value"`
+		}
+		if len(r.Calls) == 0 || jsonUnmarshal(r.Extra, &ex) != nil {
+			return "malformed replay"
+		}
+		parts := strings.SplitN(r.Calls[0].Expr, ":", 4)
+		if len(parts) != 4 {
+			return "malformed replay"
+		}
+		n, _ := strconv.Atoi(parts[2])
+		return c16LongVerdict(parts[1], n, parts[3], ex.Value)
+	}
 }
